@@ -102,6 +102,7 @@ def handle (j : Json) : Json :=
       ("dynamic", diagsJson db.dynamicCheck),
       ("singleton_dep_direct", diagsJson db.singletonDepsDirect),
       ("method_conflicts_std", diagsJson db.methodConflictsStd),
+      ("cycle_nodes", .arr ((if db.check.any (fun d => d.kind == .cycle) then findCycles db.depAdj else []).map natListJson).toArray),
       ("reach", natListJson db.reach)]
   | some "lookup", some db =>
     match getNat? j "scope", getNat? j "ty" with
